@@ -144,7 +144,7 @@ def run(prop, tier, seed):
             mo = bytes(int(x) for x in m.split("|")[1][2:].split(".")) if m.split("|")[1][2:] else b""
             if mo != want:
                 corr.append((tag, stdin, m[:200]))
-        elif m != "running":
+        elif m != "running" and not C.timed_out(m):
             corr.append((tag, stdin, m[:200]))
     seen = set()
     for tag, prog, stdin, cfg, cls, o, e, want in fails[:30]:
